@@ -83,6 +83,10 @@ pub enum Surgery {
     /// flag combinations) keyed on `glyphs`, and remove `GPOS` so that the kern fallback applies.
     /// No corpus font has a format 2 subtable.
     InstallKern { glyphs: Vec<u16>, variant: u64 },
+    /// Re-pack `hmtx` with only `num_h_metrics` long metrics (glyphs after that take the last
+    /// advance and keep their side bearing) and update `hhea`. Every corpus CFF2 font and most
+    /// others have numberOfHMetrics == numGlyphs, which hides the compact form from the writers.
+    CompactHmtx { num_h_metrics: u16 },
     /// Install `vhea`/`vmtx` derived from `hhea`/`hmtx` (only NotoSansJP has them in the corpus).
     InstallVertical { num_v_metrics: u16 },
 }
